@@ -63,8 +63,8 @@ type Meta struct {
 
 type fdef struct{ name, typ string }
 
-var dFields = []fdef{{"A", "string"}, {"B", "int"}, {"C", "string"}, {"D", "string"}, {"N", "Nest"}, {"P", "*Nest"}, {"Base", ""}, {"Q", "int"}, {"R", "string"}, {"L", "[]string"}, {"M", "map[string]string"}, {"G", "int"}, {"L2", "[]int64"}, {"H", "int"}, {"HS", "string"}, {"HV", "string"}}
-var sFields = []fdef{{"A", "int"}, {"B", "int"}, {"C", "string"}, {"D", "int"}, {"N", "Nest"}, {"P", "*Nest"}, {"Base", ""}, {"Q", "int"}, {"R", "string"}, {"L", "[]int"}, {"M", "map[string]int"}, {"L2", "[]int"}, {"PP", "*Nest"}}
+var dFields = []fdef{{"T", "int"}, {"A", "string"}, {"B", "int"}, {"C", "string"}, {"D", "string"}, {"N", "Nest"}, {"P", "*Nest"}, {"Base", ""}, {"Q", "int"}, {"R", "string"}, {"L", "[]string"}, {"M", "map[string]string"}, {"G", "int"}, {"L2", "[]int64"}, {"H", "int"}, {"HS", "string"}, {"HV", "string"}}
+var sFields = []fdef{{"T", "int"}, {"A", "int"}, {"B", "int"}, {"C", "string"}, {"D", "int"}, {"N", "Nest"}, {"P", "*Nest"}, {"Base", ""}, {"Q", "int"}, {"R", "string"}, {"L", "[]int"}, {"M", "map[string]int"}, {"L2", "[]int"}, {"PP", "*Nest"}}
 
 func structText(name string, fs []fdef, pkgPrefix string) string {
 	var b strings.Builder
@@ -100,6 +100,9 @@ func stubText(s convStub, rtPkg string) string {
 	val := fmt.Sprintf(`fmt.Sprintf("%s-%%v", v)`, s.name)
 	if s.out == "int" {
 		zero, val = "0", "v + 5000"
+	}
+	if s.out == "int64" {
+		zero, val = "0", "int64(v) + 5000"
 	}
 	if s.out == s.in && s.out == "string" {
 		val = fmt.Sprintf(`"%s-" + v`, s.name)
@@ -164,7 +167,7 @@ func hookText(fn, site, kind string, h *HookMeta, dstT, srcT string, extras []st
 var MisfitKinds = []string{"err-hook-on-noerr-method", "wrong-dst-type", "wrong-src-type", "extra-count-mismatch", "extra-type-mismatch", "non-error-result", "two-results", "one-param",
 	"extra-ptr-for-value", "extra-value-for-ptr", "extra-count-too-many", "dst-double-pointer", "src-slice", "extra-slice-for-value",
 	// one hook named by two methods: it fits the first (by name) and not the second
-	"shared-hook-extra-count", "shared-hook-extra-type", "shared-hook-dst-type",
+	"shared-hook-extra-count", "shared-hook-extra-type", "shared-hook-dst-type", "shared-hook-err-shape",
 	// result shapes other than nothing / error
 	"concrete-error-result", "slice-error-result", "bool-result", "error-first-of-two-results",
 	// a hook that takes the additional arguments variadically (judged by behaviour if accepted)
@@ -276,6 +279,7 @@ func Gen(r *sim.Rng, kind string) (*sim.WorldSpec, *Meta) {
 		{"cLI", "int", "int", true}, {"pLI", "int", "int", false},
 		{"cC", "string", "string", true}, {"pC", "string", "string", false},
 		{"cR", "string", "string", true},
+		{"cT64", "int", "int64", true},
 	}
 	ptrStubs := "func cP(v *ms.Nest) (*md.Nest, error) {\n\tif err := rt.HitE(\"cP\", \"conv\"); err != nil {\n\t\treturn nil, err\n\t}\n\tif v == nil {\n\t\treturn &md.Nest{X: \"cP-nil\"}, nil\n\t}\n\treturn &md.Nest{X: fmt.Sprint(\"cP-\", v.X), Y: v.Y, Z: v.Z}, nil\n}\n\n" +
 		"func pV(xs ...any) string {\n\trt.Hit(\"pV\", \"conv\")\n\treturn fmt.Sprint(xs...)\n}\n\n" +
@@ -511,6 +515,16 @@ func Gen(r *sim.Rng, kind string) (*sim.WorldSpec, *Meta) {
 				capable[t] = true
 			}
 		}
+		if kind == "noerr" && slot(30) {
+			// a fallible converter whose value needs :typecast to reach the field (int64
+			// into int). Only in methods without error result: with one, the pinned tree
+			// emits 'dst.T, err = int(cT64(src.T))', which does not compile (C01)
+			if !hasNote(notes, ":typecast") {
+				notes = append(notes, ":typecast")
+			}
+			notes = append(notes, ":conv cT64 T")
+			capable["cT64"] = true
+		}
 		if slot(30) {
 			f, c := pickCap(mm.RetErr, "cC", "pC")
 			notes = append(notes, ":conv "+f+" C")
@@ -672,7 +686,15 @@ func Gen(r *sim.Rng, kind string) (*sim.WorldSpec, *Meta) {
 				mm.RetErr, mm.Recv = false, ""
 				mm.Local = false
 				dstT, srcT = "md.D", "ms.S"
-				if mi == 0 {
+				if mk == "shared-hook-err-shape" {
+					// the hook returns an error: it fits F0, which has an error result, and not
+					// F1, which has none - over the very same operand types
+					mm.Extras = nil
+					mm.RetErr = mi == 0
+					if mi == 0 {
+						fmt.Fprintf(&localHooks, "func BadShared(dst *md.D, src *ms.S) error {\n\treturn nil\n}\n\n")
+					}
+				} else if mi == 0 {
 					mm.Extras = []string{"int", "string"}
 					fmt.Fprintf(&localHooks, "func BadShared(dst *md.D, src *ms.S, a0 int, a1 string) {\n}\n\n")
 				} else {
